@@ -25,6 +25,9 @@ func (a *Abs) MarshalJSON() ([]byte, error) {
 	case "int":
 		return json.Marshal(map[string]any{"t": a.T, "v": a.I})
 	case "flt":
+		if len(a.Q) < 2 {
+			return json.Marshal(map[string]any{"t": a.T, "s": a.S})
+		}
 		return json.Marshal(map[string]any{"t": a.T, "q": a.Q})
 	case "str":
 		b := a.Bytes
